@@ -102,6 +102,7 @@ func runC14(c *Ctx) {
 		// credential source
 		var noCred EdgePred
 		var credOK bool
+		var credFlag ssa.Value // the boolean "a credential was found", when the source hands one back (r.BasicAuth's ok)
 		switch v.kind {
 		case "basic":
 			bas := callsIn(f, "(*net/http.Request).BasicAuth")
@@ -113,6 +114,7 @@ func runC14(c *Ctx) {
 				okR, _ := allOrigins(ba.Call.Args[0], oIsValue(paramOfType(f, "*net/http.Request")))
 				credOK = okU && okP && okR
 				noCred = factBool(vIs(resultOf(ba, 2)), false)
+				credFlag = resultOf(ba, 2)
 				c.obI("R14.1", cb, "callback-needs-credentials", guardedBy(cb, ba, factBool(vIs(resultOf(ba, 2)), true)), "the callback is consulted only when basic credentials are present", "")
 			}
 			c.obI("R14.1", cb, "callback-gets-transmitted-credentials", credOK, "the callback receives exactly the user and password r.BasicAuth() decoded", "")
@@ -390,6 +392,18 @@ func runC14(c *Ctx) {
 				c.obI("R14.2", r, "not-applicable-only-without-credential", g && isZero(vr.Res[1]) && isZero(vr.Res[2]), "(false, nil, nil) is returned exactly when the request carries no such credential", "")
 				continue
 			}
+			// `return ok, p, err` with ok the credential flag itself: applies IS "a credential was found"; principal and error
+			// are nil or the callback's, and the callback only runs behind the flag (callback-needs-credentials), so they
+			// are nil whenever the flag is false
+			if credFlag != nil && noCred != nil {
+				if isFlag, _ := allOrigins(r0, oIsValue(credFlag)); isFlag {
+					okP, _ := allOrigins(vr.Res[1], oNil(), oIsValue(princ))
+					okE, _ := allOrigins(vr.Res[2], oNil(), oIsValue(cerr))
+					gcb := guardedBy(cb, nil, negate(noCred))
+					c.obI("R14.2", r, "applies-is-the-credential-flag", okP && okE && gcb && princ != nil, "applies is reported as the very flag 'credentials were found'; principal and error are the callback's, which runs only behind that flag — so (false, nil, nil) exactly without credentials", "")
+					continue
+				}
+			}
 			b, ok := constBool(r0)
 			c.obI("R14.2", r, "applies-otherwise", ok && b, "every other exit reports applies == true", "")
 			okP, bad := allOrigins(vr.Res[1], oNil(), oIsValue(princ))
@@ -621,6 +635,56 @@ func runC14(c *Ctx) {
 		}
 	}
 	c.min("R14.6", 4)
+	// the caller's ClientOperation is read, never written: installing the default credential (or anything else) INTO it
+	// would make the operation carry that credential to later submissions and to other transports
+	sub := p.Fn("(*rt/client.Runtime).Submit")
+	for _, root := range []*ssa.Function{sub, ch} {
+		for _, in := range instrs(root) {
+			st, ok := in.(*ssa.Store)
+			if !ok {
+				continue
+			}
+			fa, isFA := st.Addr.(*ssa.FieldAddr)
+			if !isFA {
+				continue
+			}
+			if n, _ := structOf(fa.X.Type()); n != nil && typeFullName(n) == "rt.ClientOperation" {
+				if _, isAl := fa.X.(*ssa.Alloc); isAl {
+					continue // an operation value built locally
+				}
+				c.obD("R14.6", st, "callers-operation-not-written", false, "Submit and createHttpRequest never assign a field of the caller's ClientOperation", "a field of the operation is written in "+fnName(st.Parent()))
+			}
+		}
+	}
+	// once built (and authenticated) the outgoing request's headers are sent as they are: Submit — debug dump included —
+	// never writes into the value slices of its header map
+	for _, in := range instrs(sub) {
+		st, ok := in.(*ssa.Store)
+		if !ok {
+			continue
+		}
+		switch ad := st.Addr.(type) {
+		case *ssa.IndexAddr:
+			if typeStr(ad.X.Type()) != "[]string" {
+				continue
+			}
+			fromHeader, _ := allOrigins(ad.X, func(o Origin) bool {
+				lk, isLk := o.V.(*ssa.Lookup)
+				if !isLk {
+					if ex, isEx := o.V.(*ssa.Extract); isEx {
+						_, isNext := ex.Tuple.(*ssa.Next)
+						return isNext // a value slice ranged out of a header map
+					}
+					return false
+				}
+				t := typeStr(lk.X.Type())
+				return t == "net/http.Header" || t == "map[string][]string"
+			})
+			if fromHeader {
+				c.obD("R14.5", st, "sent-headers-untouched", false, "Submit never writes into the value slices of a header map (they are shared with the request that is sent)", "a header value is overwritten in "+fnName(st.Parent()))
+			}
+		}
+	}
 }
 
 func siblingGetters(outer *ssa.Function) []*ssa.Function {
@@ -829,4 +893,38 @@ func delegatesToSibling(c *Ctx, outer *ssa.Function, family []string) (string, b
 	}
 	c.obI("R14.1", del, "delegation-adapter-is-transparent", okAd, "the adapter callback passes the credential to the application's callback and returns its principal and error unchanged", "the adapter between the variants alters the credential, the principal or the error")
 	return sib, true
+}
+
+// ruleBearerCallbackGetsScopes: the application's token callback is handed the operation's required scopes themselves
+// (ScopedAuthRequest.RequiredScopes) — the value the route builder prepared for this scheme, not a copy that may come
+// out empty, a subset or another list. Shared by C02 (scopes decide admission) and C14.
+func ruleBearerCallbackGetsScopes(c *Ctx, rule string) {
+	n := 0
+	for _, outer := range []string{"rt/security.BearerAuth", "rt/security.BearerAuthCtx"} {
+		of := c.P.Fn(outer)
+		for _, fn := range withClosures(of) {
+			for _, ci := range allCalls(fn) {
+				cc := ci.Common()
+				if cc.IsInvoke() || cc.StaticCallee() != nil {
+					continue
+				}
+				// a call of the captured authenticate function
+				isCb, _ := allOrigins(cc.Value, func(o Origin) bool {
+					prm, isP := o.V.(*ssa.Parameter)
+					return isP && prm.Parent() == of
+				})
+				if !isCb {
+					continue
+				}
+				for _, a := range cc.Args {
+					if typeStr(a.Type()) != "[]string" {
+						continue
+					}
+					n++
+					c.obI(rule, ci, "token-callback-gets-the-required-scopes", vFieldLoadO("rt/security.ScopedAuthRequest", "RequiredScopes")(a), "the token callback receives ScopedAuthRequest.RequiredScopes itself — the scopes the operation requires from this scheme", "scopes argument "+describe(a))
+				}
+			}
+		}
+	}
+	c.obR(rule, "-", "token-callbacks", "-", n >= 2, "both bearer variants hand the required scopes to the callback", fmt.Sprintf("%d", n))
 }
